@@ -170,6 +170,23 @@ Eager(nd, a, kind) ==
 \* A listing is a VALUE (ociregistry.Seq) that may be run more than once.  What was done
 \* when it was created is not done again; everything else is - from the beginning.
 Again(nd, a, kind) == LET s == Stream(nd, a, kind) IN SubSeq(s, Len(Eager(nd, a, kind)) + 1, Len(s))
+\* The consumer's context is done (cancelled, past its deadline) from the moment the
+\* consumer has received `cut` items (0: before the listing is created; -1: never).  Only a
+\* request made with that context notices - the next page request of the outermost hop
+\* (everything behind a server runs under the server's own request context; an in-memory
+\* registry does not look at it): it is not sent, and the listing ends with that error.  After
+\* a call of the consumer the next request element of the stream, if any, opens such a
+\* request.  (cut = 0 is only used on stacks without a unifier.)
+Cut(s, cut) ==
+  IF cut < 0 THEN s ELSE
+  LET yi == {j \in 1..Len(s) : IsYield(s[j])}
+      p == IF cut = 0 THEN 0
+           ELSE IF Cardinality(yi) < cut THEN Len(s)
+           ELSE CHOOSE j \in yi : Cardinality({q \in yi : q <= j}) = cut
+      later == {j \in p + 1..Len(s) : IsReq(s[j])}
+  IN IF later = {} THEN s
+     ELSE SubSeq(s, 1, (CHOOSE j \in later : \A q \in later : j <= q) - 1) \o <<Err("CONTEXT")>>
+Run(c) == Cut(Stream(c.node, c.a, c.kind), c.cut)
 \* (well-formedness of that reading: the work of creation comes first and yields nothing)
 EagerFirst(nd, a, kind) ==
   LET s == Stream(nd, a, kind)  g == Eager(nd, a, kind)
@@ -238,9 +255,9 @@ Expected(cfg) == ListAfter(View(cfg.node, cfg.kind), IF cfg.kind = "refs" THEN 0
 
 \* ------------------------------------------------------------------------
 \* One listing run step by step against a consumer that declines at its k-th call
-\* (k = 0: never).  cfg = [node, kind, a, k] is fixed in the initial state.
+\* (k = 0: never).  cfg = [node, kind, a, k, cut] is fixed in the initial state.
 VARIABLES cfg,    \* the configuration
-          stream, \* Stream(cfg.node, cfg.a, cfg.kind)
+          stream, \* Run(cfg)
           i,      \* elements of the stream that have happened
           calls,  \* consumer calls so far (stream elements)
           nreq,   \* page requests so far
@@ -249,7 +266,7 @@ vars == <<cfg, stream, i, calls, nreq, st>>
 
 Start ==
   /\ st = "start"
-  /\ stream' = Stream(cfg.node, cfg.a, cfg.kind)
+  /\ stream' = Run(cfg)
   /\ st' = "run"
   /\ UNCHANGED <<cfg, i, calls, nreq>>
 
@@ -281,13 +298,13 @@ LosslessOf(c, cs, s) == s = "done" => Items(cs) = Expected(c)
 \* While running / when declined: what was delivered is the beginning of the listing -
 \* unless an error is still to come (a unifier delivers what its healthy member has and
 \* then the other member's error: not a prefix, but never without the error).
-PrefixOf(c, cs, s) == (s \in {"run", "declined", "done"} /\ ~MayFail(c.node, c.kind)) => IsPrefix(Items(cs), Expected(c))
+PrefixOf(c, cs, s) == (s \in {"run", "declined", "done", "failed"} /\ ~MayFail(c.node, c.kind)) => IsPrefix(Items(cs), Expected(c))
 OnlyListedOf(c, cs) == LET ci == Items(cs)  ex == ToSet(Expected(c)) IN \A p \in 1..Len(ci) : ci[p] \in ex
 AscendingOf(cs) == LET ci == Items(cs) IN \A p \in 1..Len(ci) - 1 : ci[p] < ci[p + 1]
 NoDuplicatesOf(cs) == LET ci == Items(cs) IN Cardinality(ToSet(ci)) = Len(ci)
 AfterStartOf(c, cs) == LET ci == Items(cs) IN \A p \in 1..Len(ci) : c.kind # "refs" => Pos(ci[p]) > c.a
 \* An error is delivered only when some layer has a reason to fail, and it is the last call.
-ErrorCauseOf(c, cs, s) == s = "failed" => /\ MayFail(c.node, c.kind) /\ cs[Len(cs)].e = "err"
+ErrorCauseOf(c, cs, s) == s = "failed" => /\ (MayFail(c.node, c.kind) \/ c.cut >= 0) /\ cs[Len(cs)].e = "err"
                                           /\ \A p \in 1..Len(cs) - 1 : cs[p].e = "item"
 DeclinedAtKOf(c, cs, s) == s = "declined" => Len(cs) = c.k
 \* Every hop asks at most one page per item underneath plus one, per request of the hop
